@@ -65,7 +65,7 @@ fn writer_sub(ctx: &Ctx) -> SubReport {
             }
         }
     }
-    let bound = if ctx.thorough() { 4 } else { 3 };
+    let bound = if ctx.thorough() { 6 } else { 3 };
     let mut total = Acc::new();
     let mut execs = 0u64;
     let mut max_points = 0usize;
